@@ -307,19 +307,106 @@ class C12(Check):
                    "whether a razed clone that is 'done' but still entered gets its exit actions is outside this statement (probe razed-while-entered only)",
                    "program B (textual copies as ordinary auxiliaries) is the statement's 'what its original would produce alone'"]
     required_probes = ["insular", "named", "nested", "two-clones-of-one-original", "relative-entry-need", "reared", "razed-all", "razed-first", "razed-last",
-                       "raze-left-others", "raze-spared-non-razeable", "freed-name-taken-again", "dirty-plan", "razed-while-entered", "two-nested-clones-in-one-frame", "nested-named", "clock-driven-original", "raze-inside-original", "clones-under-two-framers", "marker-condition-in-original", "under-override-in-original"]
+                       "raze-left-others", "raze-spared-non-razeable", "freed-name-taken-again", "dirty-plan", "razed-while-entered", "two-nested-clones-in-one-frame", "nested-named", "clock-driven-original", "raze-inside-original", "clones-under-two-framers", "marker-condition-in-original", "under-override-in-original", "nested-clones-under-frame-inodes", "distinct-inode-paths"]
     quick_runs = 3000
     thorough_runs = 150000
     shrink_fields = []
 
     def generate(self, S, index, tier):
+        if index % 25 == 7:
+            # family 3: nested clones told apart only by the inodes ('via') of the main framer and of its frames; the inner
+            # clone's inode-relative data ('count of me') must live under each outer clone's own inode path.  Every holder frame
+            # has its own inode: without one, two chains name the same path (the user's choice, not judged)
+            g = _side(S.gen)
+            names = g.sample(["left", "right", "north", "east", "wing", "bay"], 3)
+            return {"mode": "via", "P": g.choice(["0.125", "0.25"]), "goal": g.randint(2, 5), "base": g.choice(["base", "plant", None]),
+                    "holders": names[:g.randint(2, 3)], "vias": [True, True, True], "inner": g.choice(["mine", "named"])}
         if S.gen.random() < 0.4:
             return gen_rear_plan(S.gen)
         return gen_plan(S.gen)
 
+    def _via(self, plan, out, tr):
+        """Family 3 (see generate): nested frames, each holding an insular clone of 'cell', which holds a clone of 'unit'."""
+        goal = plan["goal"]
+        holders = plan["holders"]
+        vias = [(h if v else None) for h, v in zip(holders, plan["vias"])]
+        inner = "mine" if plan["inner"] == "mine" else "inner"
+
+        def script(hs, vs):
+            L = ["house h", "", "  framer mission be active first %s%s" % (hs[-1], (" via %s" % plan["base"]) if plan["base"] else ""),
+                 "    frame top", "      go fail if elapsed >= %s" % (float(Fraction(plan["P"])) * (goal + 12))]
+            ind = "      "
+            over = "top"
+            for i, (h, v) in enumerate(zip(hs, vs)):
+                L.append("%sframe %s in %s%s" % (ind, h, over, (" via %s" % v) if v else ""))
+                L.append("%s  aux cell as mine" % ind)
+                if i == len(hs) - 1:
+                    L.append("%s  go fin if all is done" % ind)
+                over = h
+                ind += "  "
+            L += ["    frame fin", "      bid stop all", "    frame fail", "      put 1 into .sim.failed", "      bid stop all", "",
+                  "  framer cell be moot first hold", "    frame hold", "      aux unit as %s" % inner, "      go next if all is done", "    frame end", "      done", "",
+                  "  framer unit be moot first load", "    frame load", "      put 0 into count of me", "      put 0 into ticks of framer", "      go next",
+                  "    frame work", "      recur", "        inc count of me with 1", "        inc ticks of framer with 1", "      native",
+                  "      go next if count of me >= %d" % goal, "    frame end", "      done", ""]
+            return "\n".join(L) + "\n"
+
+        def run(hs, vs):
+            sc = script(hs, vs)
+            r = run_script(sc, period=float(Fraction(plan["P"])), cap=float(Fraction(plan["P"])) * (goal + 30))
+            return sc, r
+
+        def ticks_of(r):
+            got = {}
+            for fr in r.house.framers:
+                if fr.name in ("mission", "cell", "unit"):
+                    continue
+                sh = r.house.store.fetchShare("framer.%s.ticks" % fr.name)
+                if sh is not None and sh.value is not None:
+                    got[fr.name] = sh.value
+            return got
+
+        sa, ra = run(holders, vias)
+        sb, rb = run(holders[:1], vias[:1])        # one outer clone alone
+        if not rb.built or rb.exc is not None:
+            raise RuntimeError("harness: the single-clone program does not build / run: %r %r\n%s" % (rb.exc, getattr(rb, "build_errors", None), sb))
+        if not ra.built or ra.exc is not None:
+            out.violate("rejected", "clone program rejected or raised", "exc=%r errors=%r\n%s" % (ra.exc, getattr(ra, "build_errors", None), sa))
+            return
+        out.probe("nested-clones-under-frame-inodes")
+        alone = ticks_of(rb)
+        if len(alone) != 1 or list(alone.values())[0] != goal:
+            raise RuntimeError("harness: a nested clone alone ran %r ticks, expected %d\n%s" % (alone, goal, sb))
+        got = ticks_of(ra)
+        tr.add("via", sorted(got.values()))
+        if sorted(got.values()) != [goal] * len(holders):
+            out.violate("via-behaviour", "nested clones under different inodes do not behave like one of them alone",
+                        "each inner clone alone works for %d ticks; with %d outer clones: %r\n%s" % (goal, len(holders), got, sa))
+            return
+        # distinct store paths: one 'count' share per inner clone, under the inode path of its own chain of main frames
+        paths = []
+        pre = [plan["base"]] if plan["base"] else []
+        for i in range(len(holders)):
+            chain = pre + [v for v in vias[:i + 1] if v]
+            paths.append(".".join(chain + ["count"]))
+        if len(set(paths)) == len(paths):
+            for pth in paths:
+                sh = ra.house.store.fetchShare(pth)
+                if sh is None or sh.value != goal:
+                    out.violate("via-paths", "inode-relative data of nested clones not at the inode path of their own main frames",
+                                "expected share %s = %d, found %r (expected paths %r)\n%s" % (pth, goal, sh.value if sh is not None else None, paths, sa))
+                    return
+            out.probe("distinct-inode-paths")
+        out.nontrivial = True
+
     def execute(self, plan):
         out = Outcome()
         tr = Trace(keep=False)
+        if plan.get("mode") == "via":
+            self._via(plan, out, tr)
+            out.digest = tr.digest()
+            out.state_digest = hashlib.sha256(repr(sorted(plan.items(), key=repr)).encode()).hexdigest()[:16]
+            return out
         rear = plan.get("mode") == "rear"
         A, B = build_programs(plan)
         sa, sb = emit(A), emit(B)
